@@ -83,6 +83,12 @@ CLAIMED = {
   "technique": "Lean 4 proof (string-level round trip and soundness, decision logic of the pass stated outright) + exact pass correspondence + statement oracles on registry worlds",
   "design_ref": "4 C07",
  },
+ "C13": {
+  "text": "Lean 4 theorem decode_encode: for EVERY ModuleInfo value (all field combinations: empty and non-empty lists, default and non-default kinds, every import-attribute and dynamic-argument form, optional specifiers) reading back the JSON the writer produces yields the identical value; hence the writer is injective (encode_injective). The model spells out what serde derives from the attributes in src/analysis.rs (renames, skip_serializing_if, defaults, internally/externally tagged and untagged enums, flatten, tuple-form ranges with map-or-sequence readers). moduleGraph1 upgrade: the types specifier recovered is the one found in the last leading comment, with the range arithmetic proved for quoted and unquoted pragmas. Tied to /repo by correspondence of reader+writer on the serialised form of generated values, of the analyser's output on generated sources over every dependency form and on all 503 analysable sources embedded in tests/specs, and on mutated forms (object-form ranges, dropped/null/mistyped fields, explicit defaults, unknown fields) where acceptance and the value read must agree; implementation-side oracles: round trip through value and text, JsrPackageVersionInfo::module_info on the moduleGraph1 rendering equals the original, and registry worlds published with embedded info none/moduleGraph2/moduleGraph1 x cache cold/warm give byte-identical serialised graphs.",
+  "note": "The manifest-shortcut clause (graph from embedded info = graph from parsing) is decided on the implementation by differential builds, not by a Lean theorem (the builder model does not include the registry path): partial. serde/serde_json themselves are trusted; the model is of the derived reader/writer's behaviour and is validated by the correspondence. Strings containing whitespace, quotes or parentheses are outside the line protocol and are covered by the implementation-side round trip only. F25 fixed in /repo.",
+  "technique": "Lean 4 proof (round-trip law decode (encode m) = some m for all m) + reader/writer correspondence on written and mutated JSON + differential builds of registry worlds",
+  "design_ref": "4 C13",
+ },
 }
 NOT_APPLICABLE = {}
 ALL = [f"C{i:02d}" for i in range(1, 21)]
